@@ -142,6 +142,11 @@ Acked(op, k, mode) ==
     /\ ~op.task
     /\ LastIdx(op.seq, "CMD") # 0
     /\ k > LastIdx(op.seq, "CMD")
+    \* (a provisioning request of a remote child ends with the write of the
+    \* child's status entry, manager.rs rfc6492_process_request: if that
+    \* write fails the request is answered with an error although its command
+    \* is complete -- present in full, not acknowledged)
+    /\ op.seq[k].t # "STATUS"
 
 Path(op, k, mode) ==
     SeqFilter(op.seq, (1..Len(op.seq)) \ ExecIdx(op, k, mode), 1)
